@@ -174,7 +174,11 @@ impl Diagnostics {
             // If this diagnostic is a lint, update its diagnostic level. Errors always have a level of `Error`.
             if let DiagnosticKind::Lint(lint) = &diagnostic.kind {
                 // Check if the lint is allowed by an `--allow` flag passed on the command line.
-                if is_lint_allowed_by(options.allowed_lints.iter(), lint) {
+                // Unlike attribute arguments, the command line accepts lint names in any case, so we ignore case here.
+                let is_allowed_by_options = options.allowed_lints.iter().any(|identifier| {
+                    identifier.eq_ignore_ascii_case("All") || identifier.eq_ignore_ascii_case(lint.code())
+                });
+                if is_allowed_by_options {
                     diagnostic.level = DiagnosticLevel::Allowed;
                 }
 
